@@ -57,7 +57,7 @@ type Budget struct {
 
 func budget(tier string) Budget {
 	if tier == "thorough" {
-		return Budget{GenProgs: 400, MCProgs: 160, DFS: 300, Seeds: 6, LiveProgs: 40, MCTimeout: 12 * time.Minute, Workers: runtime.NumCPU(), MCSize: 10}
+		return Budget{GenProgs: 260, MCProgs: 140, DFS: 150, Seeds: 5, LiveProgs: 40, MCTimeout: 10 * time.Minute, Workers: runtime.NumCPU(), MCSize: 9}
 	}
 	return Budget{GenProgs: 36, MCProgs: 30, DFS: 40, Seeds: 2, LiveProgs: 10, MCTimeout: 3 * time.Minute, Workers: runtime.NumCPU(), MCSize: 7}
 }
